@@ -70,6 +70,7 @@ def _strip_comments(src):
 def lean_build():
     """lake build (no-op when up to date); returns (ok, log)."""
     os.makedirs(os.path.join(LEAN, ".lake"), exist_ok=True)
+    subprocess.run([sys.executable, os.path.join(VERIF, "tools", "regen_index.py")], check=True)
     lock = open(os.path.join(LEAN, ".lake", "verif.lock"), "w")
     fcntl.flock(lock, fcntl.LOCK_EX)
     try:
@@ -172,14 +173,14 @@ class Driver:
 
 def load_known_findings():
     """
-    /verif/KNOWN_FINDINGS.txt, one entry per line:
+    /verif/known_findings/*.txt, one entry per line:
       known: property=Cxx {"id":..., "signature":{...}, "text":...}   suppresses exactly that signature
       fixed: property=Cxx <commit> <what failed>                        documentation, suppresses nothing
     """
-    path = os.path.join(VERIF, "KNOWN_FINDINGS.txt")
     out = []
-    if os.path.exists(path):
-        for line in open(path):
+    d = os.path.join(VERIF, "known_findings")
+    for fn in sorted(os.listdir(d)) if os.path.isdir(d) else []:
+        for line in open(os.path.join(d, fn)):
             line = line.strip()
             m = re.match(r"known:\s+property=(C\d+)\s+(\{.*\})$", line)
             if m:
